@@ -40,6 +40,8 @@ TCase ==
        /\ e.dLin >= DMin(e.M, e.N)                                   \* linearity
        /\ e.op = "evaluate" => e.dNodes >= DMin(e.M, e.N)            \* grid values at grid points
        /\ e.op = "derivative" => e.dCommute >= DMin(e.M, e.N) - (IF Len(e.S) >= 3 THEN 1 ELSE 0)   \* axis by axis = all at once
+       \* the same object differentiated again after its basis was changed in place, and changed back (call history)
+       /\ e.op = "derivative" => e.dHist >= DMin(e.M, e.N) - 1 - (IF Len(e.S) >= 3 THEN 1 ELSE 0)
        \* one degree outside the class the rule must be visibly inexact (oracle not vacuous)
        /\ (e.op = "integrate" /\ e.kOut <= 10 /\ e.kOut >= 2) => e.dOutside <= 12
 
